@@ -21,8 +21,8 @@ PROPS["C20"] = prop(
      Unit("TestC20UidGen", _C20_TYPES, quick=5000, thorough=100000, shards_quick=1, shards_thorough=4),
      Unit("TestC20StoreUid", _C20_MAIN, quick=20000, thorough=500000, shards_quick=1, shards_thorough=4),
      Unit("TestC20SweepAll", _C20_MAIN, rapid=False, shards_quick=1, shards_thorough=1, n_quick=3, n_thorough=40),
-     Unit("TestC20Client", _C20_MAIN, quick=12000, thorough=100000, shards_quick=4, shards_thorough=16),
-     Unit("TestC20Server", _C20_MAIN, quick=12000, thorough=100000, shards_quick=4, shards_thorough=16),
+     Unit("TestC20Client", _C20_MAIN, quick=8000, thorough=100000, shards_quick=4, shards_thorough=16),
+     Unit("TestC20Server", _C20_MAIN, quick=8000, thorough=100000, shards_quick=4, shards_thorough=16),
      Unit("TestC20PbClient", _C20_MAIN, quick=6000, thorough=150000, shards_quick=2, shards_thorough=8),
      Unit("TestC20PbServer", _C20_MAIN, quick=6000, thorough=150000, shards_quick=2, shards_thorough=8),
      ],
